@@ -8,8 +8,6 @@ from symx import core
 
 core.patch_math()
 logging.disable(logging.CRITICAL)
-if "/repo" not in sys.path:
-    sys.path.append("/repo")  # tests.utils (component data wrappers), never imported from site-packages
 
 import z3  # noqa: E402
 from datetime import datetime, timezone  # noqa: E402
@@ -33,3 +31,34 @@ def approx_eq(a, b, tol):
 
 def is_sym(x):
     return type(x) in (core.SymReal, core.SymInt, core.SymDT, core.SymTD)
+
+
+import math as _m  # noqa: E402
+from frequenz.client.microgrid import (  # noqa: E402
+    BatteryComponentState, BatteryData, BatteryRelayState, InverterComponentState, InverterData)
+
+_N3 = (_m.nan, _m.nan, _m.nan)
+
+
+def battery_data(component_id, timestamp=TS, *, soc=_m.nan, soc_lower_bound=_m.nan, soc_upper_bound=_m.nan, capacity=_m.nan,
+                 power_inclusion_lower_bound=_m.nan, power_exclusion_lower_bound=_m.nan, power_inclusion_upper_bound=_m.nan,
+                 power_exclusion_upper_bound=_m.nan, temperature=_m.nan, relay_state=BatteryRelayState.UNSPECIFIED,
+                 component_state=BatteryComponentState.UNSPECIFIED, errors=None):
+    """BatteryData with NaN defaults (same defaults as the repo's tests/utils wrapper)."""
+    return BatteryData(component_id=component_id, timestamp=timestamp, soc=soc, soc_lower_bound=soc_lower_bound,
+                       soc_upper_bound=soc_upper_bound, capacity=capacity, power_inclusion_lower_bound=power_inclusion_lower_bound,
+                       power_exclusion_lower_bound=power_exclusion_lower_bound, power_inclusion_upper_bound=power_inclusion_upper_bound,
+                       power_exclusion_upper_bound=power_exclusion_upper_bound, temperature=temperature, relay_state=relay_state,
+                       component_state=component_state, errors=errors or [])
+
+
+def inverter_data(component_id, timestamp=TS, *, active_power=_m.nan, active_power_inclusion_lower_bound=_m.nan,
+                  active_power_exclusion_lower_bound=_m.nan, active_power_inclusion_upper_bound=_m.nan,
+                  active_power_exclusion_upper_bound=_m.nan, component_state=InverterComponentState.UNSPECIFIED, errors=None):
+    return InverterData(component_id=component_id, timestamp=timestamp, active_power=active_power, active_power_per_phase=_N3,
+                        reactive_power=_m.nan, reactive_power_per_phase=_N3, current_per_phase=_N3, voltage_per_phase=_N3,
+                        active_power_inclusion_lower_bound=active_power_inclusion_lower_bound,
+                        active_power_exclusion_lower_bound=active_power_exclusion_lower_bound,
+                        active_power_inclusion_upper_bound=active_power_inclusion_upper_bound,
+                        active_power_exclusion_upper_bound=active_power_exclusion_upper_bound, frequency=50.0,
+                        component_state=component_state, errors=errors or [])
